@@ -12,6 +12,7 @@ import TracingModel.Core.CoreDriver
 import TracingModel.Core.RegistryDriver
 import TracingModel.Core.SpanDriver
 import TracingModel.Core.DirectiveDriver
+import TracingModel.Core.FilteringDriver
 
 open TM TM.Wire
 
@@ -50,6 +51,9 @@ def dispatch (prop mode : String) : Option (List String → String) :=
   | "C05", "spec" => some RegistryDriver.spec
   | "C06", "model" => some RegistryDriver.model
   | "C06", "spec" => some RegistryDriver.spec
+  | "C07", "model" => some FilteringDriver.model
+  | "C07", "spec" => some FilteringDriver.spec
+  | "C07", "modelchain" => some FilteringDriver.modelChain
   | "C08", "model" => some DirectiveDriver.model2
   | "C11", "model" => some DirectiveDriver.model
   | "C19", "model" => some LevelsDriver.model
